@@ -59,7 +59,7 @@ for _f in FUNCS1:
 SMOOTH = ["sum2", "sum3", "prod2", "prod3", "quot", "pow", "pow2", "pow3", "powm1", "powh", "exp2", "cse"] + FUNCS1
 NONSMOOTH = {"fabs": "continuous", "copysign": "discontinuous", "sign": "discontinuous", "if": "discontinuous",
              "unknownf": "never"}
-LEAVES = ["x", "y", "v0", 2, 3, -1, 2.5]
+LEAVES = ["x", "y", "v0", 2, 3, -1, 0.5]
 
 
 def leaf(l):
@@ -114,7 +114,7 @@ def gen_trees(tier):
         n = KINDS[k][0]
         out.append(mk(k, default_args(n)))
         for i in range(n):
-            for c in [2, -1, 2.5]:
+            for c in [2, -1, 0.5]:
                 a = default_args(n)
                 a[i] = c
                 out.append(mk(k, a))
@@ -277,6 +277,11 @@ def dual(d, env, menv, var):
             f, g = Dual(2, 0), D(args[0])
         else:
             f, g = D(args[0]), D(args[1])
+            if isinstance(g.val, int) and not isinstance(g.val, bool):
+                n = g.val       # constant integer exponent: polynomial rule, no domain restriction beyond 0**negative
+                if n <= 0 and _frac(f.val) == 0:
+                    raise Undefined("0**non-positive")
+                return Dual(f.val ** n, n * f.val ** (n - 1) * f.der)
         fv, gv = _frac(f.val), _frac(g.val)
         if not (fv > 0):
             raise Undefined("non-positive base of a general power")
@@ -319,6 +324,10 @@ def dual(d, env, menv, var):
         if cv == 0:
             raise Undefined("switching point of the conditional")
         return D(args[1]) if cv < 0 else D(args[2])
+    if k == "unknownf":
+        u = D(args[0])
+        # only the value is ever needed (inside the condition of a conditional): no derivative rule exists
+        return Dual(env["g"](_frac(u.val)), 0)
     raise HarnessError(f"dual: no rule for {k}")
 
 # }}}
@@ -446,7 +455,8 @@ def _needs(d, var):
     if d[0] in NONSMOOTH and depends(d, var):
         # `if`: only the branches are differentiated, but the node itself needs 'discontinuous'
         lvl = order[NONSMOOTH[d[0]]]
-    return max([lvl] + [_needs(c, var) for c in d[1:]])
+    kids = d[2:] if d[0] == "if" else d[1:]      # the condition of a conditional is not differentiated
+    return max([lvl] + [_needs(c, var) for c in kids])
 
 
 _POW_LOG: list = []
